@@ -141,7 +141,10 @@ template <typename T, int N, int M>
 struct is_zero_impl< Eigen::Matrix<T, N, M> >
 {
     static bool get(const Eigen::Matrix<T, N, M> &x) {
-        return x.isZero();
+        // Exact test, as for scalars and static_matrix: Eigen's isZero()
+        // is a fuzzy comparison against 1 (precision 1e-12), which would make
+        // every block of a system with tiny coefficients count as zero.
+        return (x.array() == T()).all();
     }
 };
 
